@@ -47,9 +47,10 @@ const c19Limit = 65536 // bufio.MaxScanTokenSize
 
 // chunkReader hands out at most k bytes per Read; after the data it returns io.EOF or a failure
 type chunkReader struct {
-	data []byte
-	k    int
-	fail bool
+	data    []byte
+	k       int
+	fail    bool
+	failErr error // which error a failing reader reports (default errC19Boom)
 }
 
 var errC19Boom = errors.New("c19: injected read failure")
@@ -57,6 +58,9 @@ var errC19Boom = errors.New("c19: injected read failure")
 func (r *chunkReader) Read(p []byte) (int, error) {
 	if len(r.data) == 0 {
 		if r.fail {
+			if r.failErr != nil {
+				return 0, r.failErr
+			}
 			return 0, errC19Boom
 		}
 		return 0, io.EOF
@@ -504,7 +508,9 @@ func c19RunJSON(o *out, id int, c c19case, dir string) error {
 	case "chunked":
 		opts.InputSource = &chunkReader{data: append([]byte{}, input...), k: c.chunk}
 	case "readerr":
-		opts.InputSource = &chunkReader{data: append([]byte{}, input...), k: 0, fail: true}
+		// the failure is one of several error values, among them io.ErrUnexpectedEOF (a source cut short)
+		failures := []error{errC19Boom, io.ErrUnexpectedEOF, io.ErrClosedPipe}
+		opts.InputSource = &chunkReader{data: append([]byte{}, input...), k: 0, fail: true, failErr: failures[(id+len(input))%len(failures)]}
 	case "file":
 		fn := filepath.Join(dir, fmt.Sprintf("c19in.%d.json", id))
 		if err := ioutil.WriteFile(fn, input, 0600); err != nil {
